@@ -789,7 +789,7 @@ def gen_doc(rng, idx: int, plan: Optional[Plan] = None) -> Doc:
         d.page_gops.append([(GOP_CODE[k], v) for k, v in pre_ops + suf_ops])
         raw_names.update(content_names(b"".join(parts)))
         page: Dict[str, Any] = {"Type": "Page", "Parent": Ref(PAGES), "MediaBox": [0, 0, 612, 792]}
-        if rng.random() < 0.2:
+        if rng.random() < (0.5 if i == 0 else 0.2):      # a rotated FIRST page: later pages must not inherit it
             page["Rotate"] = rng.choice([90, 180, 270])
         elif rng.random() < 0.3:
             page["Rotate"] = Ref(DANG_B if form == "objstm" else DANG_A)     # resolves to nothing: 0
